@@ -154,7 +154,10 @@ def exec_state(df, st, emb, magc, part, variant=0):
         else:
             f = df.Field(mesh, nvdim=nv, value=raw_array(st["v0"], n, MV), valid=mask, unit="A/m")
             lastop = "new"
+        before_last = None
         for j, h in enumerate(steps):
+            if j == len(steps) - 1:
+                before_last = f.array.copy()
             if h[0] == "setnorm":
                 f.norm = norm_value(h[1], h[2], m, emb, MN, variant + j, off)
                 lastop = "setnorm-" + h[1]["k"]
@@ -188,7 +191,14 @@ def exec_state(df, st, emb, magc, part, variant=0):
         q, g, w = bad
         x = val[q]
         zero_now = x["s"][0] == 0 or not any(x["v"])
-        if lastop == "update" or (lastop == "setnone" and "update" in prev and prev[-2:-1] == ["update"]):
+        if lastop == "setnone" and before_last is not None and before_last.shape == f.array.shape \
+                and np.array_equal(before_last, f.array, equal_nan=True):
+            # norm = None changed nothing: the deviation stems from the call before it
+            prev = prev[:-1]
+            h = [x for x in hist if x[0] != "setnone"]
+            lastop = "new" if not h else ("update" if h[-1][0] == "update" else
+                                          ("ctor-norm-" if h[-1][0] == "mknormed" else "setnorm-") + h[-1][1]["k"])
+        if lastop == "update":
             clause = "C15_NoReapply"
         elif lastop == "setnone":
             clause = "C15_NoneIsNoop"
@@ -391,6 +401,16 @@ def gen_trace(df, rnd, tid, embs):
             t = targets(ns)
         return ns, t
 
+    try:
+        return _drive(df, rnd, tid, tr, mesh, m, n, ncell, nv, emb, MV, MN, vecs, mask, targets, rand_ns)
+    except core._tlc.MachineryError:
+        raise
+    except Exception as ex:  # a library call of the history raised: that is an observation, not a harness failure
+        tr["ev"].append({"k": "raise", "exc": type(ex).__name__, "msg": str(ex)[:200]})
+        return tr
+
+
+def _drive(df, rnd, tid, tr, mesh, m, n, ncell, nv, emb, MV, MN, vecs, mask, targets, rand_ns):
     off = []
     cur_mag = "V"
     if rnd.random() < 0.3:
@@ -435,7 +455,7 @@ def gen_trace(df, rnd, tid, embs):
                 f.array = raw_array(vecs2, n, MV)
             post, ex = _project_cells(fldmod.flatten(f.array), MV, [1] * ncell)
             tr["ev"].append({"k": "update", "vecs": vecs2, "post": post, "exact": ex})
-            if not ex:
+            if not ex or not _int_lengths(post):
                 break
             cells, cur_mag = post, "V"
         elif r < 0.85:
